@@ -10,7 +10,7 @@ from sx import vloop
 PROPERTY = "C17"
 BOUNDS = {
     "quick": "byte streams over the alphabet {0a,0d,3b,41,80,c3,a9,ff} of length <= 3, arriving in 1 or 2 chunks (cut point symbolic), with or without EOF, through the real asyncio.StreamReader on a real event loop (reader task and feeder task interleave); over-long lines with the reader limit lowered to 2; writes: 1..2 lines from a 6-text class list (ASCII, ';', non-ASCII, astral) with symbolic fault bits on write/drain; connect fault; close fault; use before connect; TCPTransport and SerialTransport factories",
-    "thorough": "length <= 4 and up to 3 chunks; 1..3 writes from 3 texts",
+    "thorough": "length <= 4 in 1..2 chunks, length <= 3 in up to 3 chunks; 1..3 writes from 3 texts",
 }
 REALISED = ["bytes, cut points and texts are forked into concrete values (CrossHair cannot keep bytes symbolic through bytearray / decode): the solver enumerates the stated grid"]
 STUBS = ["asyncio.open_connection / open_serial_connection -> factories returning a real StreamReader and a fake writer, or raising OSError", "fake StreamWriter (records bytes; write/drain/close may raise OSError)"]
@@ -26,8 +26,11 @@ def partitions(tier):
     parts = []
     L = 3 if q else 4
     for first in range(len(ALPHABET)):
-        parts.append({"name": "read-first%02x" % ALPHABET[first], "fn": "sym_read", "first": first, "maxlen": L, "chunks": 2 if q else 3,
-                      "budget": 600 if q else 3000, "cost": 6})
+        parts.append({"name": "read-first%02x" % ALPHABET[first], "fn": "sym_read", "first": first, "maxlen": L, "chunks": 2,
+                      "budget": 600 if q else 3600, "cost": 6 if q else 30})
+        if not q:
+            parts.append({"name": "read3chunks-first%02x" % ALPHABET[first], "fn": "sym_read", "first": first, "maxlen": 3, "chunks": 3,
+                          "budget": 3000, "cost": 12})
     parts.append({"name": "read-empty", "fn": "sym_read", "first": None, "maxlen": 0, "chunks": 1, "budget": 100, "cost": 1})
     parts.append({"name": "overrun", "fn": "sym_overrun", "maxlen": L + 1, "budget": 600 if q else 3000, "cost": 5})
     for kind in ("tcp", "serial"):
